@@ -171,7 +171,7 @@ Section WrapperProofs.
     fst w' = fst w /\ winv (snd w') /\ wabs (snd w') = fst (nstep (wabs (snd w)) o) /\ r = snd (nstep (wabs (snd w)) o).
   Proof.
     intros Hi Ho. pose proof (wabs_on_curve _ Hi) as Hc0.
-    destruct o as [| | |q|q| | |q|]; cbn [Wrapper.wstep Wrapper.nstep fst snd op_ok] in *.
+    destruct o as [| | |q|q| | |q|q|]; cbn [Wrapper.wstep Wrapper.nstep fst snd op_ok] in *.
     - pose proof (force_elt_ok w Hi) as H. destruct (force_elt w) as [w1 p]. cbn [fst]. tauto.
     - pose proof (force_enc_ok w Hi) as H. destruct (force_enc w) as [w1 s]. destruct H as (? & ? & ? & ->). auto.
     - pose proof (force_elt_ok w Hi) as H. destruct (force_elt w) as [w1 p]. destruct H as (? & ? & ? & ->). auto.
@@ -186,6 +186,7 @@ Section WrapperProofs.
       intros p Hp. split; [reflexivity|]. apply ed_neg_on_curve. assumption.
     - destruct (rewrap_ok w (fun p => p) (fun p => p) Hi) as (? & ? & ?); [|auto].
       intros p Hp. split; [reflexivity|assumption].
+    - pose proof (force_elt_ok w Hi) as H. destruct (force_elt w) as [w1 p]. destruct H as (? & ? & ? & ->). auto.
     - auto.
   Qed.
 
@@ -209,7 +210,7 @@ Section WrapperProofs.
   (* forcing order and repetition change no value: two histories that differ only by forcing operations and reads
      leave the variable denoting the same element *)
   Definition is_force (o : wop) : bool :=
-    match o with OForce | OReadEnc | OReadVal | OClone => true | _ => false end.
+    match o with OForce | OReadEnc | OReadVal | OIsEq _ | OClone => true | _ => false end.
   Lemma nrun_forces_id ops p : forallb is_force ops = true -> fst (nrun p ops) = p.
   Proof.
     revert p. induction ops as [|o ops IH]; intros p H; [reflexivity|].
